@@ -49,6 +49,12 @@ class Cfg:
         cls = dw.WB if self.compressed else dw.W
         return cls(self.prefix, self.patterns, self.alphabet, False, self.stats)
 
+    def make_pack(self):
+        return dw.make_pack(self.pack)
+
+    def brute_terms(self, n: int):
+        return dw.brute_terms(self.start(), n)
+
     def sid(self) -> str:
         opts = "".join(
             f
@@ -64,8 +70,11 @@ class Cfg:
         return d
 
     @staticmethod
-    def from_json(d: dict) -> "Cfg":
+    def from_json(d: dict):
         d = dict(d)
+        if d.get("domain") == "G":
+            return GCfg.from_json(d)
+        d.pop("domain", None)
         d["patterns"] = tuple(d["patterns"])
         d["stats"] = tuple(d["stats"])
         return Cfg(**d)
@@ -75,7 +84,56 @@ class Cfg:
         return Cfg(str(c.prefix), tuple(map(str, c.patterns)), "".join(c.alphabet), tuple(c.stats), pack, db, **kw)
 
 
-def build_searcher(cfg: Cfg, db_hook=None):
+@dataclass(frozen=True)
+class GCfg:
+    """A search configuration over the G-domain (start class = first nonterminal)."""
+
+    grammar: Tuple
+    stats: Tuple[str, ...]
+    pack: str
+    db: str
+    expand_verified: bool = False
+    debug: bool = False
+    smallest: bool = False
+
+    def start(self):
+        from mc import domain_g as dg
+
+        return dg.G(self.grammar, "N", 0, self.stats)
+
+    def make_pack(self):
+        from mc import domain_g as dg
+
+        return dg.g_pack(self.pack)
+
+    def brute_terms(self, n: int):
+        from mc import domain_g as dg
+
+        return dg.brute_terms(self.start(), n)
+
+    def sid(self) -> str:
+        opts = "".join(f for f, on in (("V", self.expand_verified), ("D", self.debug), ("S", self.smallest)) if on)
+        return f"{self.start().sid()}//{self.pack}//{self.db}" + (f"//{opts}" if opts else "")
+
+    def to_json(self) -> dict:
+        return {
+            "domain": "G",
+            "grammar": [[list(a) for a in alts] for alts in self.grammar],
+            "stats": list(self.stats),
+            "pack": self.pack,
+            "db": self.db,
+            "expand_verified": self.expand_verified,
+            "debug": self.debug,
+            "smallest": self.smallest,
+        }
+
+    @staticmethod
+    def from_json(d: dict) -> "GCfg":
+        g = tuple(tuple(tuple(a) for a in alts) for alts in d["grammar"])
+        return GCfg(g, tuple(d["stats"]), d["pack"], d["db"], d.get("expand_verified", False), d.get("debug", False), d.get("smallest", False))
+
+
+def build_searcher(cfg, db_hook=None):
     from comb_spec_searcher import CombinatorialSpecificationSearcher
 
     db = make_db(cfg.db)
@@ -83,7 +141,7 @@ def build_searcher(cfg: Cfg, db_hook=None):
         db_hook(db)
     return CombinatorialSpecificationSearcher(
         cfg.start(),
-        dw.make_pack(cfg.pack),
+        cfg.make_pack(),
         ruledb=db,
         expand_verified=cfg.expand_verified,
         debug=cfg.debug,
